@@ -1,7 +1,7 @@
 (* C03/Props.v — the property theorems, nothing else.
    Model: C03/Model.v (mirrors src/ircdb.py capability algebra, CapabilitySet,
    UserCapabilitySet, checkCapability, _checkCapabilityForUnknownUser).
-   Proofs: Fold.v, CaseInsens.v, Anti.v, Total.v. *)
+   Proofs: Fold.v, CaseInsens.v, Anti.v, Total.v, Reach.v, Spec.v. *)
 From Coq Require Import List NArith Bool.
 Import ListNotations.
 Require Import Base.Wire Base.PyStr C03.Model C03.Fold C03.CaseInsens C03.Anti C03.Total C03.Reach C03.Spec.
@@ -98,6 +98,59 @@ Theorem C03_refines_spec :
   Ok (spec_pos d p a (match chan_parts p with Some (chn, x) => Some (chn, x, DASH :: x) | None => None end)).
 Proof. exact check_is_spec. Qed.
 Print Assumptions C03_refines_spec.
+
+(* The documented precedence under ALL THREE ignore* flags and for BOTH members
+   of a (capability, anti-capability) pair.  [spec_flags] (C03/Spec.v) is the
+   decision list of C03_refines_spec with checkCapability's docstring applied:
+   ignoreOwner switches off "owners have all capabilities" (an explicit 'owner'
+   in the set is then just a capability), ignoreChannelOp switches off "channel
+   ops have all channel capabilities", ignoreDefaultAllow makes every
+   default-allow fallback (channel defaultAllow, global default flag) answer as
+   if it were False; [anti] selects which member of the pair is asked and an
+   answer b for the capability reads  holds anti b  for the asked one.  Three
+   places mirror the code rather than the docstring read literally (notes (1)-(3)
+   at spec_flags: the plain `return False` for a recognised sender's channel
+   capability under ignoreDefaultAllow; ignoreOwner reaches neither the
+   channel-op test nor the membership test).  For every database whose sets were
+   built by add, every pair of dom_cap, whichever member is asked and EVERY flag
+   triple, checkCapability computes exactly that list. *)
+Theorem C03_refines_spec_flags :
+  forall d p a f (anti : bool), antipair p a -> db_ok d = true ->
+  checkCapability d (if anti then a else p) f = Ok (spec_flags d p a (chan_triple p) f anti).
+Proof. exact check_is_spec_flags. Qed.
+Print Assumptions C03_refines_spec_flags.
+
+(* with the default flags, asked for the capability itself, spec_flags is the
+   list of C03_refines_spec *)
+Theorem C03_spec_flags_default :
+  forall d p a ch, spec_flags d p a ch flags0 false = spec_pos d p a ch.
+Proof. exact spec_flags0. Qed.
+Print Assumptions C03_spec_flags_default.
+
+(* Anti-symmetry for the flag triples where it holds: every triple without
+   ignoreDefaultAllow (as C03_anti_opposite, here read off the decision list),
+   and with ignoreDefaultAllow too unless the sender is a recognised account AND
+   the capability is a channel capability. *)
+Theorem C03_anti_opposite_flags :
+  forall d p a f b, antipair p a -> db_ok d = true ->
+  f_ignoreDefaultAllow f = false \/ effective_user d = None \/ chan_parts p = None ->
+  checkCapability d p f = Ok b -> checkCapability d a f = Ok (negb b).
+Proof. exact anti_opp_flags. Qed.
+Print Assumptions C03_anti_opposite_flags.
+
+(* Full statement that does NOT hold: "for every flag triple a capability and
+   its anti-capability get opposite answers".  Outside the domain above the
+   decision list refuses both (spec_flags_opposite_or_refused), witness: a
+   recognised account without capabilities, "#c,x" / "#c,-x", a channel that says
+   nothing about x, ignoreDefaultAllow.  AutoMode-only flag, outside the
+   documented precedence: recorded in DESIGN section 6 as a non-finding. *)
+Theorem C03_anti_opposite_ignoreDefaultAllow_refuted :
+  antipair ida_witness_p ida_witness_a /\ db_ok ida_witness_db = true /\
+  effective_user ida_witness_db <> None /\ chan_parts ida_witness_p <> None /\
+  checkCapability ida_witness_db ida_witness_p (Flags false false true) = Ok false /\
+  checkCapability ida_witness_db ida_witness_a (Flags false false true) = Ok false.
+Proof. exact anti_opp_ignoreDefaultAllow_refuted. Qed.
+Print Assumptions C03_anti_opposite_ignoreDefaultAllow_refuted.
 
 (* every non-anti capability of dom_cap forms such a pair with its anti-capability *)
 Theorem C03_dom_gives_pair :
